@@ -18,9 +18,9 @@ import json
 from .version import Version, LATEST_VER
 
 # Trailing newline sanitation
-TRAILING_NL_RE = re.compile(r'\n+$')
+TRAILING_NL_RE = re.compile(r'(?:\r?\n)+$')
 
-GRID_SEP = re.compile(r'(?<=\n)\n+')
+GRID_SEP = re.compile(r'(?<=\n)(?:\r?\n)+')
 
 MODE_ZINC = 'text/zinc'
 MODE_JSON = 'application/json'
@@ -73,7 +73,13 @@ def parse(grid_str, mode=MODE_ZINC, charset='utf-8', single=True):
         if isinstance(grid_data, dict):
             grid_data = [grid_data]
     else:
-        grid_data = GRID_SEP.split(TRAILING_NL_RE.sub('\n', grid_str))
+        # The final newline is optional, and an empty document has no grids.
+        grid_str = TRAILING_NL_RE.sub('', grid_str)
+        if grid_str:
+            grid_data = [g if g.endswith('\n') else (g + '\n')
+                         for g in GRID_SEP.split(grid_str)]
+        else:
+            grid_data = []
 
     grids = list(map(_parse, grid_data))
     if single:
